@@ -198,6 +198,7 @@ impl Monitor for C07 {
             ("files_entries_ending_exactly_at_file_end", tier.pick(20, 300)),
             ("files_entries_starting_with_under_7_bytes_left_in_block", tier.pick(50, 800)),
             ("files_restart_comparisons", tier.pick(1_500, 25_000)),
+            ("entries_written_with_frame_checksum_zero", tier.pick(100, 2_000)),
         ]
     }
     fn rule(&self) -> String {
@@ -440,7 +441,135 @@ impl C07 {
             }
         }
         acc.sample(|| json!({"leg": "through-files", "case": case, "history_excerpt": d.history_json(8)}));
+        drop(d);
+        self.checksum_values(ctx, case, acc, &mut rng);
     }
+
+    /// Entries whose frame checksum has a "special" value (0, all ones, ...): a reader that
+    /// mistakes such a checksum for unwritten, zero-filled space loses the entry and all that
+    /// follows.  The last four payload bytes are computed so that crc32(type ++ entry) hits
+    /// the target (CRC-32 is linear: any target is reachable with 4 free bytes).
+    fn checksum_values(&self, ctx: &Ctx, case: u64, acc: &mut Acc, rng: &mut Rng) {
+        let dir = ctx.scratch.sub("c07-crc");
+        crate::util::clear_dir(&dir);
+        let q = "crc";
+        let Ok(mut log) = mrecordlog::MultiRecordLog::open(&dir) else { return };
+        let Ok(c0) = log.create_queue(q) else { return };
+        let mut cursor = c0.wal_bytes_written as usize;
+        let mut expected: Vec<(u64, Vec<u8>)> = Vec::new();
+        let mut put = |log: &mut mrecordlog::MultiRecordLog, payload: Vec<u8>, expected: &mut Vec<(u64, Vec<u8>)>, cursor: &mut usize| -> Option<usize> {
+            let o = log.append_record(q, None, &payload[..]).ok()?;
+            expected.push((o.last_position?, payload));
+            *cursor += o.wal_bytes_written as usize;
+            Some(o.wal_bytes_written as usize)
+        };
+        let mut filler = vec![0u8; rng.usize(0, 3000)];
+        rng.fill(&mut filler);
+        if put(&mut log, filler, &mut expected, &mut cursor).is_none() {
+            return;
+        }
+        let targets = [0u32, 0xFFFF_FFFF, 1, 0x0100_0000, 0x0000_0100, 0x8000_0000, rng.next() as u32];
+        for _ in 0..3 {
+            let target = *rng.pick(&targets);
+            let overhead = 11 + q.len() + 12;
+            let rem = B - cursor % B;
+            if rem < H + overhead + 8 + H {
+                let mut f = vec![0u8; 64];
+                rng.fill(&mut f);
+                if put(&mut log, f, &mut expected, &mut cursor).is_none() {
+                    return;
+                }
+                continue;
+            }
+            let plen = rng.usize(4, (rem - H - overhead).min(2000));
+            let pos = expected.len() as u64;
+            let mut payload = vec![0u8; plen];
+            rng.fill(&mut payload);
+            // entry = [4][position][name_len][name][position][len][payload]
+            let mut entry = vec![4u8];
+            entry.extend_from_slice(&pos.to_le_bytes());
+            entry.extend_from_slice(&(q.len() as u16).to_le_bytes());
+            entry.extend_from_slice(q.as_bytes());
+            entry.extend_from_slice(&pos.to_le_bytes());
+            entry.extend_from_slice(&(plen as u32).to_le_bytes());
+            let body_at = entry.len();
+            entry.extend_from_slice(&payload);
+            let n = entry.len();
+            let mut h = crc32fast::Hasher::new();
+            h.update(&[1u8]);
+            h.update(&entry[..n - 4]);
+            let forged = forge_crc_suffix(h.finalize(), target);
+            entry[n - 4..].copy_from_slice(&forged);
+            let mut h2 = crc32fast::Hasher::new();
+            h2.update(&[1u8]);
+            h2.update(&entry);
+            if h2.finalize() != target {
+                acc.count("checksum_value_forgeries_that_did_not_verify_(harness)");
+                continue;
+            }
+            payload.copy_from_slice(&entry[body_at..]);
+            let Some(written) = put(&mut log, payload, &mut expected, &mut cursor) else { return };
+            if written != H + n {
+                acc.count("checksum_value_entries_not_in_a_single_full_frame");
+                continue;
+            }
+            acc.count("entries_written_with_a_chosen_frame_checksum");
+            if target == 0 {
+                acc.count("entries_written_with_frame_checksum_zero");
+            }
+            let mut after = vec![0u8; rng.usize(1, 40)];
+            rng.fill(&mut after);
+            if put(&mut log, after, &mut expected, &mut cursor).is_none() {
+                return;
+            }
+        }
+        drop(log);
+        let Ok(log) = mrecordlog::MultiRecordLog::open(&dir) else {
+            acc.violation("C07/through-files/chosen-checksum/open-failed", case, json!({"records": expected.len()}));
+            return;
+        };
+        let got: Vec<(u64, Vec<u8>)> = match log.range(q, ..) {
+            Ok(it) => it.map(|r| (r.position, r.payload.to_vec())).collect(),
+            Err(_) => Vec::new(),
+        };
+        acc.eval();
+        acc.count("files_restart_comparisons");
+        if got != expected {
+            let first_bad = got.iter().zip(expected.iter()).position(|(a, b)| a != b).unwrap_or(got.len().min(expected.len()));
+            acc.violation(
+                "C07/through-files/entry-with-a-chosen-frame-checksum-not-read-back",
+                case,
+                json!({"appended_records": expected.len(), "read_back_records": got.len(), "first_difference_at_index": first_bad, "note": "one or more entries were written with a frame checksum of 0 / 0xFFFFFFFF / other chosen values"}),
+            );
+        }
+    }
+}
+
+/// Four bytes which, appended to data whose CRC-32 is `crc_so_far`, make the CRC-32 of the
+/// whole equal to `target` (reflected CRC-32, polynomial 0xEDB88320).
+fn forge_crc_suffix(crc_so_far: u32, target: u32) -> [u8; 4] {
+    let mut table = [0u32; 256];
+    for i in 0..256u32 {
+        let mut c = i;
+        for _ in 0..8 {
+            c = if c & 1 != 0 { 0xEDB8_8320 ^ (c >> 1) } else { c >> 1 };
+        }
+        table[i as usize] = c;
+    }
+    let mut want = target ^ 0xFFFF_FFFF;
+    let mut idx = [0usize; 4];
+    for i in (0..4).rev() {
+        let t = (0..256).find(|k| table[*k] >> 24 == want >> 24).unwrap();
+        idx[i] = t;
+        want = (want ^ table[t]) << 8;
+    }
+    let mut reg = crc_so_far ^ 0xFFFF_FFFF;
+    let mut out = [0u8; 4];
+    for i in 0..4 {
+        out[i] = ((reg ^ idx[i] as u32) & 0xFF) as u8;
+        reg = (reg >> 8) ^ table[idx[i]];
+    }
+    out
 }
 
 /// Auxiliary (Miri / valgrind) workload: `n` round trips at offsets next to block edges.
